@@ -157,7 +157,15 @@ func c01Unit(j *Job, u *JobUnit) error {
 					if violatesRules(p.Msg) {
 						return true
 					}
-					call(cellBase+",ct="+ctKey+",dir=request#"+devClass(p), p, p.Msg, fullOut)
+					cls := devClass(p)
+					for _, pv := range m.PathVars {
+						if fd := p.Msg.ProtoReflect().Descriptor().Fields().ByName(protoName(pv)); fd != nil && fd.Kind() == protoreflect.StringKind {
+							if v := p.Msg.ProtoReflect().Get(fd).String(); v == "." || v == ".." {
+								cls = "dotsegment"
+							}
+						}
+					}
+					call(cellBase+",ct="+ctKey+",dir=request#"+cls, p, p.Msg, fullOut)
 					return true
 				})
 				if err != nil {
